@@ -14,4 +14,31 @@ CLAIMED = {
         "technique": "Coq proof (sorting/max characterisation, permutation invariance, frame lemma over class tree) + differential correspondence",
     },
 }
+CLAIMED["C07"] = {
+    "text": "Theorems (closed under the global context): a representation invariant wf(state, list) holds for a fresh container, "
+            "is preserved by each of prepend/append/add_before/add_after/remove on every well-formed state (any size, any ids, "
+            "re-inserted elements with stale links included), hence along every history (induction over the operation list); "
+            "iteration = the list, backward walk = its reverse, first/last/links as in the list. The code as found is proved to "
+            "violate it (C07_refuted_*). Tied to RegisterData/BlockData/SectionData by all histories to depth 4 (quick) / 5 "
+            "(thorough), the inductive-step scope to size 4 with all value patterns, and random histories to length 30.",
+    "note": BASE_NOTE + "Object identity is modelled by nat ids; value equality is irrelevant to the repaired code (two fix: commits).",
+    "technique": "Coq proof (heap-segment invariant, refinement to list, induction over histories) + differential correspondence",
+}
+CLAIMED["C08"] = {
+    "text": "Theorems (closed): of_type and get_*_of_type are the stated filters with the None/one/list shape and are pure; bulk "
+            "removal on any well-formed container yields a well-formed container representing a filter of the list that keeps "
+            "every non-matching member and drops every matching member except possibly the first (fold invariant over the "
+            "snapshot). The code as found is refuted. Tied to the three containers by exhaustive small containers x all requests "
+            "and random interleavings with structural operations.",
+    "note": BASE_NOTE + "isinstance and getattr are parameters of the model (tables supplied per case).",
+    "technique": "Coq proof (filter characterisation + fold invariant over C07's wf) + differential correspondence",
+}
+CLAIMED["C15"] = {
+    "text": "Theorems (closed): with Python's reflected-operand rule modelled, element equality = same class and equal data; "
+            "container equality <-> same length and pairwise equal (Forall2); reflexive, symmetric; a proper prefix is never "
+            "equal either way round. Tied to containers and files of the three families by all pairs of short sequences over a "
+            "pool with subclass-related classes, random pairs, and foreign right-hand sides (oracle).",
+    "note": BASE_NOTE + "Data equality is abstracted to equality of codes (NaN data and signed zeros are outside, DESIGN 8.2).",
+    "technique": "Coq proof (equivalence-relation facts incl. reflected __eq__ dispatch) + differential correspondence",
+}
 NOT_APPLICABLE = {}
